@@ -15,9 +15,14 @@ BASE_NOTE = ("Trusted: Coq 8.16.1 kernel + vm_compute (no native_compute, no axi
 
 # id -> (category, technique, level text, design ref, extra note)
 CLAIMS = {
-    "C01": ("proof", "Coq: closed lemmas (slider exactness, one-step shifts, pawn attack sets); full refinement stated, not proved; differential of the real generator against the executable 8x8 rules specification",
-            "PARTIAL proof. The refinement `generator = rules on all of D, no duplicates` is stated in coq/props/C01.v and NOT proved; proved are the "
-            "lemmas it rests on (C10 slider exactness, shifts without wrap-around, pawn attack sets). The property is decided by running the real "
+    "C01": ("proof", "Coq: king-safety half of soundness proved for every generator block (pin sets sound and complete, check mask, king steps, castling, en passant; ray geometry by finite sweeps), no-duplicates and promotions proved; full refinement stated, not proved as a whole; differential of the real generator against the executable 8x8 rules specification",
+            "PARTIAL proof. The refinement `generator = rules on all of D, no duplicates` is stated in coq/props/C01.v and not proved as a whole. Proved "
+            "(closed under the global context): on every position satisfying the invariant Inv0 (executable inv_b) and the en-passant consistency ep_ok_b, NO "
+            "generated move leaves the mover's king attacked (gen_legal: gi_allowed is the checking ray / the checker / empty, the pin sets are sound and "
+            "complete for 'only man between king and enemy slider', king steps via is_safe with the king lifted, castling incl. the horizontally pinned "
+            "Chess960 rook, en passant incl. the two-pawn discovery); without ep_ok_b the statement is false (witness theorem: a parser-accepted, "
+            "retro-inconsistent FEN); the legality filter of Rules.legal equals the engine's test on the made move (LegalBridge); no move is generated twice; "
+            "promotions come once per piece. Open: generated moves are pseudo-legal by the rules' own lists, and completeness. The property is decided by running the real "
             "generator (all entry points) against the extracted specification spec/Rules.v on generated positions of D (play-outs, suite FENs, "
             "Chess960/DFRC starts, pin/check/ep/castling/promotion templates): a test, not a proof.", "DESIGN.md section 6 C01", ""),
     "C02": ("proof", "Coq refinement proof makemove = Rules.apply for every move kind incl. castling in both geometries (stage decomposition, bit-by-bit board semantics, all nine state components) and for the null move; the executable premise and closure of D by differential model/implementation/Rules.apply on every legal move of sampled positions",
@@ -27,12 +32,16 @@ CLAIMS = {
             "half-move clock, full-move number; (c) makemove is the composition of the stages the proof works on; (d) NO per-move premise: on every position passing the "
             "executable test good_pos_b, EVERY move the generator emits refines Rules.apply (GenSane: the generator block by block, 'allowed' "
             "never contains our men). good_pos_b and refines_b are evaluated (true) on every position / legal move the run generates. "
-            "Open: closure of D (that the successor again passes good_pos_b) -- decided by the correspondence "
-            "run (all fields, both key variants, Rules.apply, play-outs with null moves).", "DESIGN.md section 6 C02", ""),
+            "(e) closure with NO legality premise: the invariant InvR (= Closure.Inv and ep_ok_b; executable invR_b) is kept by EVERY generated move "
+            "(a generated move never leaves the mover's king attacked: C01) and by the null move out of check, so the refinement holds along every "
+            "sequence of generated moves. invr_b is evaluated (true) on every position of D the run uses. The tie of the model to the code is the "
+            "correspondence run (all fields, both key variants, Rules.apply, play-outs with null moves).", "DESIGN.md section 6 C02", ""),
     "C03": ("proof", "Coq lemmas on the root (answer = last pv, best move of the root loop is legal, ordering a permutation) + searches over limits/histories/tables checked against the rules",
-            "PARTIAL proof. Proved on the model: the answer is the move of the last reported iteration; when the root loop ends with a best move it is a "
-            "legal root move; the root is never null-move pruned. Not proved: that a best move always exists when legal moves exist (value bounds). "
-            "Decided by running the real search with zero/near-zero budgets, clocks 95..105, repetition roots and pre-filled tables.",
+            "Proved on the model with no hypothesis left: for every stop predicate (every limit, zero budgets included), every history and every table "
+            "satisfying TBnd (stored scores within the mate bounds: true of new/cleared/resized tables, kept by every search), root answers with a move "
+            "legal in the root whenever one exists, for every root satisfying the executable invariant invr_b (value bounds by induction over fuel with "
+            "the position invariant kept by every generated move and null move; that generated moves keep the king safe is C01's gen_legal). "
+            "The tie to the binary: the real search with zero/near-zero budgets, clocks 95..105, repetition roots and pre-filled tables.",
             "DESIGN.md section 6 C03", "modulo fuel"),
     "C06": ("proof", "Coq lemmas (decimal and ep-square round trip) + differential round trips and an independent canonical X-FEN printer",
             "PARTIAL proof. Proved: clocks and ep squares round-trip through printer and parser (both arithmetic modes). Board rows, castling letters "
@@ -62,8 +71,9 @@ CLAIMS = {
             "castling in both geometries) that passes the executable test key_move_b, and the null-move step: the invariant 'stored key = "
             "recomputed key' is preserved step by step; (c) any 1..4 distinct entries of the regenerated key tables XOR to a non-zero value. "
             "Also with NO per-move premise: on every position passing good_pos_b every generated move keeps the invariant. good_pos_b / key_move_b are "
-            "evaluated (true) on every position / legal move the run generates; closure of D under moves, and the "
-            "'different positions had different keys' clause, rest on the correspondence run.",
+            "evaluated (true) on every position / legal move the run generates. Along EVERY sequence of generated moves (and null moves out of check) from a "
+            "position satisfying InvR the stored key = recomputed key = spec_key of the abstract state reached (no legality premise: C01's gen_legal). "
+            "The 'different positions had different keys' clause rests on the correspondence run.",
             "DESIGN.md section 6 C04", ""),
     "C05": ("proof", "Coq lemmas on the model of `moves`/`position` + differential against the token-denotation specification",
             "PARTIAL proof. Proved on the model: one key per position reached, in order; an unknown token changes nothing; only legal moves are "
@@ -87,7 +97,8 @@ CLAIMS = {
             "modulo fuel: statements are about searches that return"),
     "C14": ("proof", "Coq proof on the root loop (iterations in order, node/depth limit clauses, bestmove = last pv) + differential; time = measurement",
             "Proof on the model for: iterations reported consecutively from 1, nothing deeper than a depth limit, no iteration >= 2 reported at or "
-            "beyond a node limit, answer = first move of the last pv. Score bounds: checked by run. Time clause: wall-clock measurement "
+            "beyond a node limit, answer = first move of the last pv; every reported score within [-MATE, MATE] (strictly inside +-INF) and the table left "
+            "behind satisfies TBnd again, for every limit, history and admissible table, with no hypothesis left (GenLegal.v). Time clause: wall-clock measurement "
             "(budget + 250 ms). Depth limits >= MAX_DEPTH: recorded known finding.", "DESIGN.md section 6 C14", "modulo fuel"),
     "C15": ("proof", "Coq proof for the command layer (only `position` with a rejected FEN can panic) + both binaries on generated scripts",
             "PARTIAL by nature. Proved: in the model of the command loop no line other than `position` with a FEN the parser rejects reaches a "
@@ -102,7 +113,8 @@ CLAIMS = {
             "division; table entries bounded by a finite sweep, men counted by kind with disjoint boards, phase and taper bounds) + differential",
             "Proved: evaluation reads the eight bitboards only (hence colour-blind: the mirrored twin is the same boards with the turn flag "
             "negated), is the exact negative with the turn passed for all boards below 2^64, and satisfies |eval| <= 400000 < MATE_SCORE - "
-            "MAX_DEPTH on every position of D (more generally: at most 16 men a side, one kind per square). The bound uses the tables "
+            "MAX_DEPTH on every position of D (more generally: at most 16 men a side, one kind per square), and after every generated move from a position "
+            "satisfying the invariant (men counts never grow; no legality premise). The bound uses the tables "
             "the translator reads from the source, so a changed table re-opens it.", "DESIGN.md section 6 C17", ""),
     "C18": ("proof", "Coq refinement proof over arbitrary operation sequences + differential on random sequences",
             "Full proof on the model (generic entry type): every finite op sequence gives the outputs of the last-stored-per-slot specification; "
